@@ -247,10 +247,12 @@ def scionRxTimeOld (d : ScionDgram) (_cTx1 cRx : Int) : Int :=
   if d.decoded.length ≥ 3 && secondLast d.decoded == some .e2e then d.tsOpt.getD cRx else cRx
 
 /-- client_scion.go, loop body after a successful read with `flags == 0`; `rxTime` is
-    `scionRxTime` (current code) or `scionRxTimeOld`. -/
+    `scionRxTime` (current code) or `scionRxTimeOld`; `malformed` is what an authenticator
+    option whose data is not 28 bytes long leads to: as repaired an authentication failure
+    (`.skip .auth`), before the `fix:` commit a panic inside `PacketAuthOptMetadata`. -/
 def classifySCIONWith (rxTime : ScionDgram → Int → Int → Int)
     (cfg : Cfg) (sc : ScionCtx) (prev : Prev) (req : Req) (cTx1 cRx : Int)
-    (d : ScionDgram) : Step :=
+    (d : ScionDgram) (malformed : Step := .skip .auth) : Step :=
   if !d.decodeOk then .skip .layers
   else if !(d.decoded.length ≥ 2 && (lastLayer d.decoded == some .udp || lastLayer d.decoded == some .scmp)) then
     .skip .unexpected
@@ -265,14 +267,20 @@ def classifySCIONWith (rxTime : ScionDgram → Int → Int → Int)
       match d.authOpt with
       | none => next
       | some a =>
-        if !a.wellFormed then .panic
+        if !a.wellFormed then malformed
         else if a.spi == spiServer && a.alg == algCMAC then
           if !a.macOk then .skip .auth else next
         else next
     else next
 
-def classifySCION := classifySCIONWith scionRxTime
-def classifySCIONOld := classifySCIONWith scionRxTimeOld
+def classifySCION (cfg : Cfg) (sc : ScionCtx) (prev : Prev) (req : Req) (cTx1 cRx : Int) (d : ScionDgram) : Step :=
+  classifySCIONWith scionRxTime cfg sc prev req cTx1 cRx d
+def classifySCIONOld (cfg : Cfg) (sc : ScionCtx) (prev : Prev) (req : Req) (cTx1 cRx : Int) (d : ScionDgram) : Step :=
+  classifySCIONWith scionRxTimeOld cfg sc prev req cTx1 cRx d
+/-- the code before the `fix:` commit for the malformed-authenticator finding (client-side twin
+    of F4b): option data of a length other than 28 made `PacketAuthOptMetadata` panic -/
+def classifySCIONAuthOld (cfg : Cfg) (sc : ScionCtx) (prev : Prev) (req : Req) (cTx1 cRx : Int) (d : ScionDgram) : Step :=
+  classifySCIONWith scionRxTime cfg sc prev req cTx1 cRx d .panic
 
 /-- what the socket delivers to one loop iteration -/
 inductive Event (D : Type) where
